@@ -596,6 +596,9 @@ fn run_suite<S: ShortGroupSignatureScheme>(v: &Value, ps: bool) -> Value {
                                 let k = dev["slot"].as_u64().unwrap_or(0) as usize % resp.len().max(1);
                                 if !resp.is_empty() { resp[k] = -resp[k]; }
                             }
+                            "tamper_extend_minus_c" => resp.push(-c),
+                            "tamper_extend_zero" => resp.push(Scalar::ZERO),
+                            "tamper_shorten" => { resp.pop(); }
                             "tamper_resp_swap" => {
                                 if resp.len() >= 2 { resp.swap(0, 1); }
                             }
